@@ -51,7 +51,7 @@ PROPERTIES = {
         'does_not_decide': 'the numeric bound itself (run-time weights), the +1 per inserting thread term',
     },
     'C17': {
-        'rules': [cfg.rule_flow_config_names, cfg.rule_build_validate, cfg.rule_default_consts, cfg.rule_initcap_sink, ty.rule_type_policy],
+        'rules': [cfg.rule_flow_config_names, cfg.rule_build_validate, cfg.rule_default_consts, cfg.rule_initcap_sink, cfg.rule_store_config, ty.rule_type_policy],
         'explanation': 'Every configuration wire is followed by name through the type-checked program: builder setters change exactly their '
                        'own field; build* validate (ttl, tti) before constructing; each argument / struct field / getter named X receives the '
                        'value named X; the panic condition is exactly `d <= Duration::from_secs(1000*365*24*3600)` false; defaults are the '
@@ -108,7 +108,7 @@ PROPERTIES = {
         'does_not_decide': 'per-schedule visibility between an invalidating thread and readers',
     },
     'C16': {
-        'rules': [live.rule_guard_live_all, must.rule_update_resets, live.rule_miss_reasons, stale.rule_stale_removal, flow.rule_flow_sync, ty.rule_type_iter],
+        'rules': [live.rule_guard_live_all, must.rule_update_resets, live.rule_miss_reasons, stale.rule_stale_removal, flow.rule_flow_sync, must.rule_must_insert, ty.rule_type_iter],
         'explanation': 'Both Iter::next implementations yield an item only on paths where the full liveness predicate of that very '
                        'item is false.',
         'decides': 'iteration never yields an expired / invalidated entry; the filter is exactly the liveness predicate',
@@ -146,7 +146,7 @@ PROPERTIES = {
     },
     'C09': {
         'rules': [conc.rule_lock_order, conc.rule_pair_sync_flag, conc.rule_auth_nonblocking, conc.rule_loops,
-                  conc.rule_loop_retry, conc.rule_const_logsizes, conc.rule_housekeeper_lifetime, stale.rule_must_drain],
+                  conc.rule_loop_retry, conc.rule_const_logsizes, conc.rule_housekeeper_lifetime, stale.rule_must_drain, conc.rule_flush_trigger],
         'explanation': 'Deadlock/livelock freedom argued structurally for all schedules: lock-order graph acyclic '
                        '(incl. DashMap shard locks and closures run under them), no blocking primitive, the maintenance '
                        'try-lock flag is released on every normal path, every loop is bounded or makes progress by running '
